@@ -34,7 +34,7 @@
 (*                                                                         *)
 (* Three kinds of deviation names (parameter dv of every rule):            *)
 (*  mutation seeds   accept_no_field, unescape_drops_backslash,            *)
-(*                   reject_recovers, bool_T_false, quote_ends_tagval      *)
+(*                   reject_recovers, bool_T_false                         *)
 (*  as-implemented   empty_tag_skipped, tagval_equals_literal,             *)
 (*   (structure)     fsuffix_unvalidated, quote_scan                       *)
 (*  as-implemented   int_via_float64, float_fastfloat, ts_mult_wraps       *)
@@ -110,11 +110,11 @@ TsKind(t, p, dv) ==
   ELSE "reject"
 
 -----------------------------------------------------------------------------
-NoField == [k |-> <<>>, t |-> "", tok |-> "", s |-> <<>>, via |-> "", val |-> ""]
+NoField == [k |-> <<>>, t |-> "", tok |-> "", s |-> <<>>, via |-> "", val |-> "", e |-> 0]
 
 A0 == [st |-> "Mst", esc |-> FALSE, cur |-> <<>>, key |-> <<>>, mst |-> <<>>, tags |-> <<>>, fields |-> <<>>,
        pend |-> NoField, ts |-> "TS_MISSING", tsvia |-> "", struct |-> {}, amb |-> {}, why |-> "",
-       tail |-> 0, inq |-> FALSE, vq |-> FALSE, vsq |-> FALSE, vlq |-> FALSE, vle |-> FALSE, vn |-> 0, vtok |-> ""]
+       tail |-> 0, used |-> {}, vnq |-> 0, inq |-> FALSE, vq |-> FALSE, vsq |-> FALSE, vlq |-> FALSE, vle |-> FALSE, vn |-> 0, vtok |-> ""]
 
 Rej(a, w) == [a EXCEPT !.st = "Reject", !.why = w]
 Str(a, i) == [a EXCEPT !.struct = @ \cup {i}]
@@ -145,19 +145,19 @@ StepTagKey(a, c, i, dv) ==
   IF a.esc \/ c \notin {"C", "S", "E"} THEN Lit(a, c, i, dv)
   ELSE IF c = "E" THEN
     IF a.cur = <<>> /\ "empty_tag_skipped" \notin dv THEN Rej(a, "empty tag key")
-    ELSE Str([a EXCEPT !.key = a.cur, !.cur = <<>>, !.st = "TagVal"], i)
+    ELSE Str([a EXCEPT !.key = a.cur, !.cur = <<>>, !.st = "TagVal",
+                       !.used = IF a.cur = <<>> THEN @ \cup {"empty_tag_skipped"} ELSE @], i)
   ELSE Rej(a, "tag without value")
 
 StepTagVal(a, c, i, dv) ==
-  IF c = "Q" /\ ~a.esc /\ "quote_ends_tagval" \in dv /\ a.cur # <<>> THEN
-       Str([a EXCEPT !.tags = Append(@, [k |-> a.key, v |-> a.cur]), !.cur = <<>>, !.key = <<>>, !.st = "FieldKey"], i)
-  ELSE IF a.esc \/ c \notin {"C", "S", "E"} THEN Lit(a, c, i, dv)
+  IF a.esc \/ c \notin {"C", "S", "E"} THEN Lit(a, c, i, dv)
   ELSE IF c = "E" THEN
-    IF "tagval_equals_literal" \in dv THEN [a EXCEPT !.cur = Append(@, i)] ELSE Rej(a, "unescaped = in tag value")
+    IF "tagval_equals_literal" \in dv THEN [a EXCEPT !.cur = Append(@, i), !.used = @ \cup {"tagval_equals_literal"}] ELSE Rej(a, "unescaped = in tag value")
   ELSE IF a.cur = <<>> /\ "empty_tag_skipped" \notin dv THEN Rej(a, "missing tag value")
   ELSE LET keep == a.cur # <<>> /\ a.key # <<>>
            tg   == IF keep THEN Append(a.tags, [k |-> a.key, v |-> a.cur]) ELSE a.tags
-       IN Str([a EXCEPT !.tags = tg, !.cur = <<>>, !.key = <<>>, !.st = IF c = "C" THEN "TagKey" ELSE "FieldKey"], i)
+       IN Str([a EXCEPT !.tags = tg, !.cur = <<>>, !.key = <<>>, !.st = IF c = "C" THEN "TagKey" ELSE "FieldKey",
+                        !.used = IF keep THEN @ ELSE @ \cup {"empty_tag_skipped"}], i)
 
 -----------------------------------------------------------------------------
 \* field section, documented grammar
@@ -170,13 +170,14 @@ StepFieldKeyD(a, c, i, dv) ==
   ELSE IF c = "S" /\ a.cur = <<>> /\ a.fields = <<>> THEN Str(a, i)
   ELSE Rej(a, "field without value")
 
-TokField(a, c, dv) == [k |-> a.key, t |-> TokType(c, dv), tok |-> c, s |-> <<>>, via |-> TokVia(c, dv), val |-> BoolVal(c, dv)]
+TokField(a, c, dv, e) == [k |-> a.key, t |-> TokType(c, dv), tok |-> c, s |-> <<>>, via |-> TokVia(c, dv), val |-> BoolVal(c, dv), e |-> e]
 
 StepFieldValD(a, c, i, dv) ==
   IF c = "Q" THEN Str([a EXCEPT !.st = "FieldValStr", !.cur = <<>>], i)
   ELSE IF c \in AllValToks THEN
     IF TokType(c, dv) = "reject" THEN Rej(a, "invalid field value")
-    ELSE Str([a EXCEPT !.st = "FieldValEnd", !.pend = TokField(a, c, dv)], i)
+    ELSE Str([a EXCEPT !.st = "FieldValEnd", !.pend = TokField(a, c, dv, i),
+                       !.used = IF c = "N_JUNKF" THEN @ \cup {"fsuffix_unvalidated"} ELSE @], i)
   ELSE Rej(a, "unquoted string or empty value")
 
 StepFieldValStrD(a, c, i, dv) ==
@@ -186,7 +187,7 @@ StepFieldValStrD(a, c, i, dv) ==
   ELSE IF c = "B" THEN [a EXCEPT !.esc = TRUE]
   ELSE IF c = "Q" THEN
     Str([a EXCEPT !.st = "FieldValEnd", !.cur = <<>>,
-                  !.pend = [k |-> a.key, t |-> "string", tok |-> "", s |-> a.cur, via |-> "", val |-> ""]], i)
+                  !.pend = [k |-> a.key, t |-> "string", tok |-> "", s |-> a.cur, via |-> "", val |-> "", e |-> i]], i)
   ELSE [a EXCEPT !.cur = Append(@, i)]
 
 CommitD(a) == [a EXCEPT !.fields = Append(@, a.pend), !.pend = NoField, !.key = <<>>]
@@ -209,15 +210,18 @@ StepFieldKeyI(a, c, i, dv) ==
   ELSE IF c = "E" THEN
     IF a.cur = <<>> THEN Rej(a, "empty field key")
     ELSE Str([a EXCEPT !.key = a.cur, !.cur = <<>>, !.st = "IVal", !.vq = FALSE, !.vsq = FALSE, !.vlq = FALSE,
-                       !.vle = FALSE, !.vn = 0, !.vtok = ""], i)
-  ELSE IF c \in {"C", "S"} /\ a.inq THEN [a EXCEPT !.cur = Append(@, i)]
+                       !.vle = FALSE, !.vn = 0, !.vnq = 0, !.vtok = ""], i)
+  ELSE IF c \in {"C", "S"} /\ a.inq THEN [a EXCEPT !.cur = Append(@, i), !.used = @ \cup {"quote_scan"}]
   ELSE IF c = "S" /\ a.cur = <<>> /\ a.fields = <<>> THEN Str(a, i)
   ELSE IF c \in {"C", "S"} THEN Rej(a, "field without value")
   ELSE [a EXCEPT !.cur = Append(@, i)]
 
 ButLast(s) == SubSeq(s, 1, Len(s) - 1)
 
-CommitI(a, dv) ==
+\* texts that end in the letter f
+EndsInF == {"B_f", "N_JUNKF", "F_FSUFFIX"}
+
+CommitI(a, h, e, dv) ==
   IF a.vn = 0 THEN Rej(a, "empty value")
   ELSE IF a.vq THEN
     IF a.vsq THEN
@@ -225,27 +229,36 @@ CommitI(a, dv) ==
         LET inner == Tail(a.cur)
             last  == inner[Len(inner)]
             body  == IF a.vle THEN Append(ButLast(inner), last - 1) ELSE ButLast(inner)
-        IN [a EXCEPT !.fields = Append(@, [k |-> a.key, t |-> "string", tok |-> "", s |-> body, via |-> "", val |-> ""]),
-                     !.cur = <<>>, !.key = <<>>]
+        IN [a EXCEPT !.fields = Append(@, [k |-> a.key, t |-> "string", tok |-> "", s |-> body, via |-> "", val |-> "", e |-> e]),
+                     !.cur = <<>>, !.key = <<>>,
+                     !.used = IF a.vnq # 2 \/ a.vle THEN @ \cup {"quote_scan"} ELSE @]
       ELSE Rej(a, "missing closing quote")
-    ELSE [a EXCEPT !.fields = Append(@, [k |-> a.key, t |-> "string", tok |-> "", s |-> <<>>, via |-> "qscan", val |-> ""]),
-                   !.cur = <<>>, !.key = <<>>]
+    ELSE [a EXCEPT !.fields = Append(@, [k |-> a.key, t |-> "string", tok |-> "", s |-> <<>>, via |-> "qscan", val |-> "", e |-> e]),
+                   !.cur = <<>>, !.key = <<>>, !.used = @ \cup {"quote_scan"}]
   ELSE IF a.vn = 1 /\ a.vtok # "" /\ TokType(a.vtok, dv) # "reject" THEN
-    [a EXCEPT !.fields = Append(@, TokField(a, a.vtok, dv)), !.cur = <<>>, !.key = <<>>]
+    [a EXCEPT !.fields = Append(@, TokField(a, a.vtok, dv, e)), !.cur = <<>>, !.key = <<>>,
+              !.used = IF a.vtok = "N_JUNKF" THEN @ \cup {"fsuffix_unvalidated"} ELSE @]
+  ELSE IF a.vn > 1 /\ h[e] \in EndsInF /\ ~a.esc /\ "fsuffix_unvalidated" \in dv THEN
+    \* several classes swallowed into one value by the quote parity, the last text ends in f: the whole text
+    \* in front of that f goes through ParseBestEffort unvalidated (fsuffix_unvalidated)
+    [a EXCEPT !.fields = Append(@, [k |-> a.key, t |-> "float", tok |-> "", s |-> <<>>, via |-> "ffjunk", val |-> "", e |-> e]),
+              !.cur = <<>>, !.key = <<>>, !.used = @ \cup {"fsuffix_unvalidated"}]
   ELSE Rej(a, "invalid field value")
 
-StepIVal(a, c, i, dv) ==
+StepIVal(a, h, c, i, dv) ==
   IF c \in {"C", "S"} /\ ~a.esc /\ ~a.inq THEN
-    LET b == CommitI(a, dv)
+    LET b == CommitI(a, h, i - 1, dv)
     IN IF b.st = "Reject" THEN b ELSE Str([b EXCEPT !.st = IF c = "C" THEN "FieldKey" ELSE "Timestamp"], i)
   ELSE IF a.esc THEN
     IF c \in {"Q", "B"} THEN [a EXCEPT !.cur = Append(@, i), !.esc = FALSE, !.vn = @ + 1, !.vlq = (c = "Q"), !.vle = (c = "Q"), !.vtok = ""]
     ELSE [a EXCEPT !.cur = @ \o <<i - 1, i>>, !.esc = FALSE, !.vn = @ + 1, !.vlq = FALSE, !.vle = FALSE, !.vtok = ""]
   ELSE IF c = "B" THEN [a EXCEPT !.esc = TRUE, !.vn = @ + 1, !.vlq = FALSE, !.vle = FALSE, !.vtok = ""]
   ELSE IF c = "Q" THEN [a EXCEPT !.cur = Append(@, i), !.inq = ~a.inq, !.vq = TRUE, !.vsq = (IF a.vn = 0 THEN TRUE ELSE a.vsq),
-                                 !.vn = @ + 1, !.vlq = TRUE, !.vle = FALSE, !.vtok = ""]
+                                 !.vn = @ + 1, !.vnq = @ + 1, !.vlq = TRUE, !.vle = FALSE, !.vtok = ""]
   ELSE [a EXCEPT !.cur = Append(@, i), !.vn = @ + 1, !.vlq = FALSE, !.vle = FALSE,
-                 !.vtok = IF a.vn = 0 /\ c \in AllValToks THEN c ELSE ""]
+                 !.vtok = IF a.vn = 0 /\ c \in AllValToks THEN c ELSE "",
+                 \* a separator swallowed by the quote parity although the value is not a string
+                 !.used = IF c \in {"C", "S"} /\ a.inq /\ ~a.vsq THEN @ \cup {"quote_scan"} ELSE @]
 
 -----------------------------------------------------------------------------
 StepTimestamp(a, c, p, i, dv) ==
@@ -269,7 +282,7 @@ Step(a, h, c, p, i, dv) ==
   ELSE IF a.st = "FieldVal" THEN StepFieldValD(a, c, i, dv)
   ELSE IF a.st = "FieldValStr" THEN StepFieldValStrD(a, c, i, dv)
   ELSE IF a.st = "FieldValEnd" THEN StepFieldValEndD(a, c, i, dv)
-  ELSE IF a.st = "IVal" THEN StepIVal(a, c, i, dv)
+  ELSE IF a.st = "IVal" THEN StepIVal(a, h, c, i, dv)
   ELSE IF a.st = "Timestamp" THEN StepTimestamp(a, c, p, i, dv)
   ELSE IF a.st = "TimestampEnd" THEN StepTimestampEnd(a, c, i)
   ELSE a
@@ -283,7 +296,7 @@ DupField(h, a) == \E i, j \in 1..Len(a.fields) : i < j /\ SameText(h, a.fields[i
 
 Finish(a0, h, dv) ==
   LET a == IF a0.st = "FieldValEnd" THEN [CommitD(a0) EXCEPT !.st = "Timestamp"]
-           ELSE IF a0.st = "IVal" THEN (LET b == CommitI(a0, dv) IN IF b.st = "Reject" THEN b ELSE [b EXCEPT !.st = "Timestamp"])
+           ELSE IF a0.st = "IVal" THEN (LET b == CommitI(a0, h, Len(h), dv) IN IF b.st = "Reject" THEN b ELSE [b EXCEPT !.st = "Timestamp"])
            ELSE a0
   IN IF a.st = "Reject" THEN a
      ELSE IF a.st \in {"Timestamp", "TimestampEnd"} THEN
@@ -302,12 +315,15 @@ Within(a) == /\ Len(a.cur) <= MaxStr
              /\ Len(a.fields) + (IF a.st \in {"FieldKey", "FieldVal", "FieldValStr", "FieldValEnd", "IVal"} /\ (a.fields # <<>> \/ a.cur # <<>> \/ a.key # <<>>) THEN 1 ELSE 0) <= MaxFields
 
 \* classes offered in the current state of the design automaton
-Offer ==
+BaseOffer ==
   IF Len(line) = 0 THEN FirstChars
   ELSE IF d.st = "Reject" THEN TailChars
   ELSE IF d.st = "FieldVal" THEN Chars \cup ValToks
   ELSE IF d.st = "Timestamp" THEN Chars \cup TsToks
   ELSE Chars
+
+Offer == BaseOffer      \* the simulation config replaces it by a random subset
+EolOK == TRUE           \* the simulation config ends most lines only where they are complete
 
 Consume(c, p) ==
   LET i  == Len(line) + 1
@@ -328,7 +344,7 @@ Next ==
                /\ Consume(c, p)
                /\ (d.st # "Reject" => Within(d'))
                /\ (d.st = "Reject" => d.tail < TailLen)
-     \/ /\ Len(line) > 0
+     \/ /\ Len(line) > 0 /\ EolOK
         /\ line' = line /\ prec' = prec /\ done' = TRUE
         /\ d' = Finish(d, line, Dev)
         /\ m' = [D \in DevSets |-> Finish(m[D], line, Dev \cup D)]
@@ -363,6 +379,11 @@ Conservation ==
        /\ SeqSet(dec) \cap d.struct = {}
        /\ SeqSet(dec) \cup d.struct = 1..Len(line)
        /\ \A x, y \in 1..Len(dec) : x < y => dec[x] < dec[y]
+
+\* quotes are special only as the two delimiters of a string field value
+QuotesOnlyDelimitStrings ==
+  d.st = "Accept" =>
+    Cardinality({j \in d.struct : line[j] = "Q"}) = 2 * Cardinality({x \in 1..Len(d.fields) : d.fields[x].t = "string"})
 
 \* every tag seen is kept with a non-empty key and value
 TagsComplete ==
